@@ -346,7 +346,9 @@ def run(scn, full_log=False):
         sizes = [len(d) for _, d in in_msgs] + ([len(d) for _, d in out_msgs] if not raw else [])
         mms = max(sizes) if sizes and max(sizes) > 0 else None
         if mms is not None and not raw and topts is not None:
-            mms += 64 + mms // 100  # Tornado's own sender always compresses: leave room
+            # Tornado's own sender always compresses: leave room for zlib's worst case
+            # (deflateBound with a small memLevel: n + n/8 + n/64 + 11)
+            mms += 64 + mms // 7
     in_feats = []
     app_pings_in = [R.expand_data(m["p"]) for m in in_items if "c" in m]  # real mode: client pings
     app_pings_out = [R.expand_data(m["p"]) for m in out_items if "c" in m]
